@@ -58,6 +58,8 @@ func addHeaders(r *http.Request, cfg config.Proxy, stripPath string) error {
 	ws := r.Header.Get("Upgrade") == "websocket"
 	// ServeHTTP also hands 'Upgrade: Websocket' to the websocket handler
 	ws = ws || r.Header.Get("Upgrade") == "Websocket"
+	// and every other spelling of the token
+	ws = ws || strings.EqualFold(r.Header.Get("Upgrade"), "websocket")
 	if ws {
 		clientIP := remoteIP
 		// If we aren't the first proxy retain prior
